@@ -217,7 +217,9 @@ class Executor(ResolutionContext):
                         )
                     ),
                     complete,
-                    else_=(Exception, on_error),
+                    # BaseException: the field also ends when the runtime
+                    # cancels it (a sibling aborted the request).
+                    else_=(BaseException, on_error),
                 )
             )
         except Exception as err:
